@@ -87,6 +87,12 @@ func (w *world) applyEnds(upto int) {
 				return // still running
 			}
 		} else if !inv.endApplied {
+			// the fault is recorded when the node serves the request; the invocation is over (all its entries
+			// handed to the possibly lagging handler) only once the client went on: a later invocation, a
+			// dial after the fault, or the end of the session
+			if inv.id == len(w.invs)-1 && w.dialCount == inv.dialsAtEnd && !w.sessionEnded(inv.session) {
+				return
+			}
 			inv.endApplied = true
 			c, p := inv.label()
 			// labelling only (never judged): an earlier fault after which the client demonstrably resumed
@@ -108,6 +114,60 @@ func (w *world) applyEnds(upto int) {
 		}
 		w.pendingInv++
 	}
+}
+
+func (w *world) sessionEnded(id int) bool {
+	for _, s := range w.sess {
+		if s.id == id {
+			return s.ended
+		}
+	}
+	return true
+}
+
+// recheck reads every entry again through the very slice the handler was handed (caller: driver, at
+// quiescence). An entry that was correct (or judged) when processed and reads differently now has been
+// changed after delivery: statement-level the handler was handed other logs than the block's.
+func (w *world) recheck(when string) {
+	w.mu.Lock()
+	defer w.mu.Unlock()
+	for i := range w.entries {
+		e := &w.entries[i]
+		if e.mutated {
+			continue
+		}
+		now := e.recv.Logs
+		same := len(now) == len(e.snap)
+		for j := 0; same && j < len(now); j++ {
+			same = sameLog(now[j], e.snap[j])
+		}
+		if same {
+			continue
+		}
+		e.mutated = true
+		phase := "historical"
+		if w.invs[e.inv].stream {
+			phase = "streaming"
+		}
+		w.d.Probe("entry-mutated")
+		w.d.Finding("exact-logs-in-order", "entry-mutated-after-delivery/"+phase,
+			"entry #%d for block %d was handed over with logs %s; at %s the same BlockLogs value reads %s",
+			i, e.block, renderLogs(w.keysOf(e.snap)), when, renderLogs(w.keysOf(now)))
+	}
+}
+
+func renderLogs(ks []lkey) string {
+	s := "["
+	for i, k := range ks {
+		if i > 0 {
+			s += " "
+		}
+		s += fmt.Sprintf("b%d/tx%d/i%d", k.block, k.tx, k.idx)
+		if !k.known {
+			s += "?"
+		}
+	}
+	return s + "]"
 }
 
 func (w *world) judge() {
